@@ -472,6 +472,7 @@ func runC11(c *Ctx) {
 
 	// ================= R4 =================
 	c11PerTableState(c)
+	c11MethodArgMask(c)
 }
 
 // C11.R4: every Parser field that is written while a table is parsed is
@@ -624,3 +625,84 @@ func c11PerTableState(c *Ctx) {
 
 // storedFieldsAll lists every struct field selected on an address path.
 func storedFieldsAll(p []PE) []*types.Var { return pathFields(p) }
+
+
+// C11.R5: the number of arguments of a method invocation is read from the
+// method's flags byte in more than one place (parsing a call inside a deferred
+// block, resolving calls after the table is loaded, printing the tree). All of
+// them must take the same field: the low three bits (ACPI: ArgCount, bits 0-2).
+// A site that masks differently gives calls of methods with 4..7 arguments a
+// different arity than the other sites.
+func c11MethodArgMask(c *Ctx) {
+	m := c.K
+	const aml = "device/acpi/aml"
+	c.floor("C11.R5", 2)
+	pkg := m.pkg(aml)
+	argAt := m.lookupMethod(aml, "ObjectTree", "ArgAt")
+	valueF := m.fieldOf(aml, "Object", "value")
+	if pkg == nil || argAt == nil || valueF == nil {
+		c.unresolved("C11.R5", "ObjectTree.ArgAt / Object.value")
+		return
+	}
+	// flagsOf: v is (through conversions) <ArgAt(method, 1)>.value.(uint64), or a value merged from it
+	var isFlags func(v ssa.Value, depth int) bool
+	isFlags = func(v ssa.Value, depth int) bool {
+		if depth > 6 {
+			return false
+		}
+		switch x := stripConv(v).(type) {
+		case *ssa.TypeAssert:
+			b, f, ok := loadedField(x.X)
+			if !ok || f != valueF {
+				return false
+			}
+			call, ok := m.resultOf(b, argAt, -1)
+			if !ok {
+				return false
+			}
+			k, ok := constUint64(call.Common().Args[2])
+			return ok && k == 1
+		case *ssa.Extract:
+			return isFlags(x.Tuple, depth+1)
+		case *ssa.Phi:
+			for _, e := range x.Edges {
+				if isFlags(e, depth+1) {
+					return true
+				}
+			}
+		}
+		return false
+	}
+	n := 0
+	for _, fn := range m.scanFuncs() {
+		if fn.Pkg != pkg {
+			continue
+		}
+		for _, b := range m.blocksOf(fn) {
+			for _, in := range b.Instrs {
+				bo, ok := in.(*ssa.BinOp)
+				if !ok || bo.Op != token.AND {
+					continue
+				}
+				var mask uint64
+				var okM bool
+				switch {
+				case isFlags(bo.X, 0):
+					mask, okM = constUint64(bo.Y)
+				case isFlags(bo.Y, 0):
+					mask, okM = constUint64(bo.X)
+				default:
+					continue
+				}
+				n++
+				c.Evals++
+				key := fmt.Sprintf("method-argcount-mask %s #%d", m.fnName(fn), n)
+				c.check(okM && mask == 7, "C11.R5", key, "argument count = method flags & 0x7",
+					fmt.Sprintf("the argument count of a method is taken as flags & %#x here; the other sites (and ACPI) use the low three bits (& 0x7): calls of methods with more arguments get a different arity at this site", mask), m.pos(in.Pos()))
+			}
+		}
+	}
+	if n < 2 {
+		c.fail("C11.R5", "method-argcount-mask aml", fmt.Sprintf("only %d site(s) that read a method's argument count found (rule shape lost)", n))
+	}
+}
